@@ -103,3 +103,56 @@ CONTRACTS.append(Contract(
     K + 'send_success_response',
     params={'self': HANDLER2, 'msgid': Str, 'methodname': Str, 'instance': Ref('CIMInstance')},
     callees=RESP_CALLEES, ensures=ONE_MORE, raises={}))
+
+
+# ---- "no request prevents later valid indications from being accepted": every connection is served by its own thread.
+# The listener's server class gets that from the ORDER of its base classes - socketserver.ThreadingMixIn.process_request
+# (start a thread per request) must come before HTTPServer's inherited BaseServer.process_request (serve it in the accept
+# loop) in the method resolution order.  The lemma reads the class statement from the real source on every run, builds
+# the class from the real standard-library bases and asks CPython's own C3 linearisation which process_request wins.
+import ast as _ast
+import os as _os
+
+
+def lemma_one_thread_per_connection(repo):
+    """ThreadedHTTPServer.process_request resolves to ThreadingMixIn.process_request (one thread per connection)."""
+    import z3
+    import socketserver
+    import http.server
+    from pyvc.core import Obligation, EngineLimit
+    path = _os.path.join(_os.environ.get('PYVC_REPO', '/repo'), 'pywbem', '_listener.py')
+    tree = _ast.parse(open(path, encoding='utf-8').read())
+    cls = [n for n in tree.body if isinstance(n, _ast.ClassDef) and n.name == 'ThreadedHTTPServer']
+    if not cls:
+        raise EngineLimit('class ThreadedHTTPServer not found in pywbem/_listener.py')
+    cls = cls[0]
+    known = {'socketserver.ThreadingMixIn': socketserver.ThreadingMixIn, 'ThreadingMixIn': socketserver.ThreadingMixIn,
+             'HTTPServer': http.server.HTTPServer, 'http.server.HTTPServer': http.server.HTTPServer,
+             'socketserver.TCPServer': socketserver.TCPServer, 'ThreadingHTTPServer': http.server.ThreadingHTTPServer,
+             'http.server.ThreadingHTTPServer': http.server.ThreadingHTTPServer}
+    names = [_ast.unparse(b) for b in cls.bases]
+    if any(n not in known for n in names):
+        raise EngineLimit(f'base classes {names} of ThreadedHTTPServer are not the standard-library classes this lemma knows')
+    own = {n.name for n in cls.body if isinstance(n, (_ast.FunctionDef,))} | \
+          {t.id for n in cls.body if isinstance(n, _ast.Assign) for t in n.targets if isinstance(t, _ast.Name)}
+    if own & {'process_request', 'process_request_thread', 'serve_forever', '_handle_request_noblock'}:
+        raise EngineLimit('ThreadedHTTPServer overrides the request dispatch itself')
+    try:
+        probe = type('Probe', tuple(known[n] for n in names), {})
+        winner = probe.process_request
+        mro = [c.__module__ + '.' + c.__qualname__ for c in probe.__mro__[1:]]
+    except TypeError as e:      # no consistent MRO: the module would not even import
+        raise EngineLimit(f'no method resolution order for bases {names}: {e}')
+    ok = winner is socketserver.ThreadingMixIn.process_request
+    ob = Obligation('pywbem/_listener.py::ThreadedHTTPServer::process_request-starts-a-thread-per-connection', 'lemma', [],
+                    z3.BoolVal(ok), 0,
+                    {'expr': f'class ThreadedHTTPServer({", ".join(names)}): process_request must resolve to '
+                             f'socketserver.ThreadingMixIn.process_request; method resolution order: {mro}', 'replay_fn': None})
+    if not ok:
+        ob.meta['replay'] = {'confirmed': True, 'native': f'type("Probe", ({", ".join(names)}), {{}}).process_request is '
+                             f'{winner.__qualname__}: requests are served one after the other in the accept thread - a sender '
+                             'that stalls keeps every later indication waiting', 'mro': mro}
+    return [ob]
+
+
+LEMMAS = list(globals().get('LEMMAS', [])) + [lemma_one_thread_per_connection]
